@@ -33,7 +33,8 @@ INFO = {
 }
 MANDATORY = {'deep': ['verdict-equals-chain-predicate', 'reference-accepts-the-valid-chain'],
              'chain': ['verdict-equals-chain-predicate'], 'ctor': ['constructor-checks-anchor'],
-             'ctor_roots': ['constructor-checks-anchor'], 'history': ['verdict-independent-of-history']}
+             'ctor_roots': ['constructor-checks-anchor'], 'history': ['verdict-independent-of-history'],
+             'seq': ['verdict-independent-of-history']}
 
 SCHEMA = '''
 #KEY: "KEY"/_/_/_
@@ -347,6 +348,7 @@ def chain_schema(D):
         lines.append('#l%d: /"k"/%s/#KEY <= #l%d' % (i, '/'.join('"a%d"' % j for j in range(1, i + 1)), i - 1))
     lines.append('#other: /"k"/"o"/#KEY <= #l0')
     lines.append('#data: /"k"/"d"/_ <= #l%d' % (D - 1))
+    lines.append('#odata: /"k"/"od"/_ <= #other')
     return '\n'.join(lines) + '\n'
 
 
@@ -447,6 +449,8 @@ def build_chain(eng, D, kinds, fault, link, tk=0):
     if fault == 'name-outside-schema':
         packet = tobytes(enc.make_data('/k/e/1', enc.MetaInfo(), b'payload', signers[D - 1]))
     W['packet'] = packet
+    W['signers'] = signers
+    W['other_signer'] = so
     return W
 
 
@@ -569,6 +573,50 @@ def h_deep(eng, case):
     eng.reach('accepts' if got else 'rejects')
 
 
+def h_seq(eng, case):
+    """one validator instance (default arguments) validates a solver-chosen sequence of packets - valid ones, and ones
+    whose signer is genuine and already known to the validator but not allowed to sign that name; every verdict equals
+    the reference chain predicate of that packet alone, whatever came before"""
+    import ndn.encoding as enc
+    from ndn.app_support.light_versec import Checker, lvs_validator, compile_lvs
+    D = case['depth']
+    text = chain_schema(D)
+    key = ('deep', D)
+    if key not in _C:
+        _C[key] = (compile_lvs(text), lvsref.Schema(text))
+    model, rschema = _C[key]
+    W = build_chain(eng, D, case['kinds'], 'none', 0)
+    leaf, other = W['signers'][D - 1], W['other_signer']
+    mk_pkt = lambda name, s: tobytes(enc.make_data(name, enc.MetaInfo(), b'payload', s))
+    packets = [W['packet'],                       # /k/d/1 by the leaf key: valid
+               mk_pkt('/k/od/1', other),          # by the sibling key, which may sign /k/od/_ : valid
+               mk_pkt('/k/d/2', other),           # sibling key on a name it may not sign
+               mk_pkt('/k/od/2', leaf),           # leaf key on a name it may not sign
+               mk_pkt('/k/e/1', leaf)]            # name outside the schema
+    expect = [ref_chain(W, rschema, p) for p in packets]
+    eng.check(expect[0] and expect[1] and not (expect[2] or expect[3] or expect[4]), 'reference-sanity')
+    n = case['len']
+    seq = [eng.choice(len(packets), 'pkt%d' % i) for i in range(n)]
+
+    def mk(app):
+        return [lvs_validator(Checker(model, {}), app, W['anchor'][1])]
+    WW = {'anchor': (W['anchor'][0], W['anchor'][1]), 'mid': (W['anchor'][0], W['anchor'][1]),
+          'other': (W['anchor'][0], W['anchor'][1])}
+    r, out, face, loop, err = run_validation(eng, WW, packets, mk, [(0, pi) for pi in seq], W['certs'], W['behaviour'])
+    if 'ctor_exc' in out or r is None:
+        eng.fail('validation-terminates', 'ctor-or-deadlock', repr(out.get('ctor_exc'))[:100])
+        return
+    for k, (pi, got) in enumerate(zip(seq, r)):
+        if isinstance(got, tuple):
+            eng.fail('validator-returns-a-verdict', got[1])
+            continue
+        eng.check(bool(got) == bool(expect[pi]), 'verdict-independent-of-history',
+                  {'sequence': seq, 'position': k, 'got': repr(got)},
+                  sig='%s-packet-%d-at-position-%d' % ('accepts' if got else 'rejects', pi, min(k, 1)))
+    eng.observe('verdicts', [bool(x) if not isinstance(x, tuple) else x for x in r])
+    eng.reach('end')
+
+
 CTOR_SCHEMAS = {
     # two roots of trust whose names are disjoint: no anchor matches both
     'two-roots-disjoint': '#KEY: "KEY"/_/_/_\n#root: /"k"/#KEY\n#root2: /"j"/#KEY\n#d: /"k"/"d"/_ <= #root\n#e: /"j"/"e"/_ <= #root2\n',
@@ -676,7 +724,7 @@ def h_history(eng, case):
     eng.reach('end')
 
 
-HARNESSES = {'deep': h_deep, 'ctor_roots': h_ctor_roots, 'chain': h_chain, 'ctor': h_ctor, 'history': h_history}
+HARNESSES = {'seq': h_seq, 'deep': h_deep, 'ctor_roots': h_ctor_roots, 'chain': h_chain, 'ctor': h_ctor, 'history': h_history}
 
 FAULTS = ['none', 'issuer-not-allowed', 'sig-corrupt', 'key-substituted', 'cert-nack', 'cert-timeout', 'unsigned',
           'locator-loop', 'name-outside-schema', 'mid-signed-by-other']
@@ -718,6 +766,9 @@ def cases(tier, seed):
             for link in range(D):
                 for off in range(0, 460):
                     cs.append(('deep', {'depth': D, 'kinds': kinds, 'fault': 'tamper', 'link': link, 'k': ['at', off]}))
+    for D, kinds in ((2, ['rsa', 'ecdsa']),) if tier == 'quick' else ((1, ['ecdsa']), (2, ['rsa', 'ecdsa']), (3, ['hmac', 'ecdsa', 'rsa'])):
+        for n in (1, 2, 3):
+            cs.append(('seq', {'depth': D, 'kinds': kinds, 'len': n}, {'weight': 5 ** n}))
     for sch in CTOR_SCHEMAS:
         for kind in ('rsa', 'hmac'):
             cs.append(('ctor_roots', {'schema': sch, 'anchor_kind': kind}))
